@@ -107,6 +107,12 @@ type streamResultReceiver struct {
 	readRev uint64
 	stream  chan *proto.StreamRangeResponse
 	batch   []*proto.KeyValue
+
+	// sent is the number of key-values of this partition already pushed to the stream. A worker that
+	// runs again after an error scans its partition from the start (same snapshot, same order), so
+	// that many are skipped instead of being streamed a second time.
+	sent int
+	skip int
 }
 
 func newStreamReceiver(readRev uint64, stream chan *proto.StreamRangeResponse) *streamResultReceiver {
@@ -117,6 +123,10 @@ func newStreamReceiver(readRev uint64, stream chan *proto.StreamRangeResponse) *
 }
 
 func (e *streamResultReceiver) append(key, value []byte, revision uint64) {
+	if e.skip > 0 {
+		e.skip--
+		return
+	}
 	e.batch = append(e.batch, &proto.KeyValue{
 		Key:      key,
 		Value:    value,
@@ -134,6 +144,7 @@ func (e *streamResultReceiver) append(key, value []byte, revision uint64) {
 			},
 		}
 		e.stream <- resp
+		e.sent += len(batch)
 	}
 }
 
@@ -147,7 +158,8 @@ func (e *streamResultReceiver) flush() {
 			},
 		}
 		e.stream <- resp
-		e.reset()
+		e.sent += len(e.batch)
+		e.batch = make([]*proto.KeyValue, 0, rangeStreamBatch)
 	}
 }
 
@@ -157,6 +169,7 @@ func (e *streamResultReceiver) close() {
 
 func (e *streamResultReceiver) reset() {
 	e.batch = make([]*proto.KeyValue, 0, rangeStreamBatch)
+	e.skip = e.sent
 }
 
 func (e *streamResultReceiver) fork() resultReceiver {
